@@ -209,6 +209,65 @@ func c04Struct(c *Ctx) {
 				r.Add("STRUCT.rmw", name, "|= on "+p.TextAt(st.Pos(), "buf[k]")+" follows a plain store of that byte", p.Position(st.Pos()), plain, "the byte is or-ed into without having been assigned: the result depends on the previous buffer contents")
 			}
 		}
+		// a write inside a loop goes to a position that moves with the loop: a destination that is the same in every
+		// iteration (while the value written changes) overwrites one slot again and again and leaves the others alone
+		for _, w := range ws {
+			if !inAnyLoop(w.Block()) {
+				continue
+			}
+			var at ssa.Value
+			switch x := w.(type) {
+			case *ssa.Store:
+				if ia, ok := x.Addr.(*ssa.IndexAddr); ok {
+					at = ia.Index
+				}
+			case *ssa.Call:
+				dst := x.Call.Args[0]
+				if core.BuiltinName(x) != "copy" && len(x.Call.Args) > 1 {
+					dst = x.Call.Args[1]
+				}
+				if sl, ok := dst.(*ssa.Slice); ok {
+					at = sl.Low
+				}
+			}
+			if at == nil {
+				continue // buf[:k] or the whole buffer: position 0 by construction, not a cursor
+			}
+			variant := false
+			var dep func(v ssa.Value, depth int)
+			seenV := map[ssa.Value]bool{}
+			dep = func(v ssa.Value, depth int) {
+				if variant || seenV[v] || depth > 8 {
+					return
+				}
+				seenV[v] = true
+				switch y := v.(type) {
+				case *ssa.Phi:
+					if inAnyLoop(y.Block()) {
+						variant = true
+					}
+				case *ssa.BinOp:
+					dep(y.X, depth+1)
+					dep(y.Y, depth+1)
+				case *ssa.Convert:
+					dep(y.X, depth+1)
+				case *ssa.UnOp:
+					if inAnyLoop(y.Block()) && y.Op == token.MUL {
+						variant = true // re-read from memory inside the loop (a cursor kept in a cell)
+					}
+				case *ssa.Call:
+					if inAnyLoop(y.Block()) {
+						variant = true
+					}
+				case *ssa.Extract:
+					variant = variant || inAnyLoop(y.Block())
+				}
+			}
+			dep(at, 0)
+			n++
+			r.Add("STRUCT.loopdest", name, "write inside a loop goes to a position that advances with the loop: "+p.TextAt(w.Pos(), w.String()), p.Position(w.Pos()), variant,
+				"the destination offset is the same in every iteration")
+		}
 		// zero fill: padding bytes are written explicitly
 		zeroLoop := false
 		allWs := ws
